@@ -321,7 +321,9 @@ def oracle(prop, case, out):
             fails.append(("stopped_twice", "graph %s stopped %d times" % (list(gp), len(bpg))))
 
     # every node whose start completed is stopped exactly once, in time
-    must_be_done_at_return = bool(c["cleanup"]) or not threw or (threw and result[2] != 1)
+    # an evaluate fault escaped (decided from the hook log, not from the error text)
+    eval_in_flight = bool(fired) and hook_phase[fired[0][1][0]] == 1
+    must_be_done_at_return = bool(c["cleanup"]) or not eval_in_flight
     nodes = {e[2] for e in log if e[0] in NODE_KINDS}
     nrun = len(ev_run)
     for p in sorted(nodes):
